@@ -826,12 +826,22 @@ fn misc_op(op: &str, a: &[&str]) -> R {
             let iters = parse_usize(a[1])?;
             if qs.is_empty() { return None; }
             let refs: Vec<String> = qs.iter().map(|q| format!("{:?}", q.prepare())).collect();
+            // 8 checker threads compare every prepared element with the sequential reference; 8 hammer threads only prepare
+            // (alternating points as fast as possible), so that stores to any shared state are frequent
+            let stop = std::sync::atomic::AtomicBool::new(false);
             let bad: usize = std::thread::scope(|sc| {
-                let hs: Vec<_> = (0..16usize).map(|t| { let qs = &qs; let refs = &refs; sc.spawn(move || {
+                let hammers: Vec<_> = (0..8usize).map(|t| { let qs = &qs; let stop = &stop; sc.spawn(move || {
+                    let mut i = t; let mut acc = 0usize;
+                    while !stop.load(std::sync::atomic::Ordering::Relaxed) { acc = acc.wrapping_add(std::hint::black_box(qs[i % qs.len()].prepare()).is_zero() as usize); i += 1; }
+                    acc }) }).collect();
+                let hs: Vec<_> = (0..8usize).map(|t| { let qs = &qs; let refs = &refs; sc.spawn(move || {
                     let mut bad = 0usize;
                     for i in 0..iters { let j = (t + i) % qs.len(); if format!("{:?}", qs[j].prepare()) != refs[j] { bad += 1; } }
                     bad }) }).collect();
-                hs.into_iter().map(|h| h.join().unwrap_or(usize::MAX / 64)).sum()
+                let r = hs.into_iter().map(|h| h.join().unwrap_or(usize::MAX / 64)).sum();
+                stop.store(true, std::sync::atomic::Ordering::Relaxed);
+                for h in hammers { let _ = h.join(); }
+                r
             });
             if bad == 0 { "ok".to_string() } else { format!("MISMATCH {} prepared elements differ from the sequential result", bad) }
         }
